@@ -487,6 +487,9 @@ func newSchemaType(spec *specification.Schema, components Componenter, cfg Confi
 			imports = append(imports, ims...)
 
 			if schema.Ref != nil {
+				if schema.IsNullable() {
+					return nil, nil, fmt.Errorf("allOf: %d-th element: %q is nullable: a nullable schema cannot be a member of allOf", i, schema.Ref.Name)
+				}
 				s.Fields = append(s.Fields, StructureField{
 					Name:               schema.Ref.Name,
 					Type:               schema,
